@@ -293,6 +293,44 @@ impl Family for UseFamily {
     }
 }
 
+
+/// statement ids are opaque 32-bit numbers chosen by the shim: every ordered pair of ids from a
+/// palette (small, around 256/512/1000/1024/4096/65536, 2^24, 2^31, 2^32-1) is prepared, then
+/// both are executed, long-data'd and closed in both orders - every command must reach the
+/// callback with exactly its id whatever other ids are open
+pub struct IdPairs;
+const IDS: [u32; 24] = [0, 1, 2, 255, 256, 257, 511, 512, 513, 600, 999, 1000, 1001, 1010, 1023, 1024, 1025, 4095, 4096, 65535, 65536, 1 << 24, 1 << 31, u32::MAX];
+impl Family for IdPairs {
+    fn ambient(&self, idx: u64) -> u64 {
+        crate::engine::rot(idx)
+    }
+    fn name(&self) -> String {
+        "statement-id-pairs".into()
+    }
+    fn len(&self) -> u64 {
+        (IDS.len() * IDS.len()) as u64
+    }
+    fn run(&self, idx: u64, st: &mut Stats) -> Result<(), Violation> {
+        let a = IDS[idx as usize / IDS.len()];
+        let b = IDS[idx as usize % IDS.len()];
+        st.nontrivial += 1;
+        st.bump("id_pairs");
+        let prep = |id: u32| with_byte(COM_STMT_PREPARE, format!("id={} p=0", id).as_bytes());
+        let mut cmds = vec![prep(a), prep(b), cmd_execute(b, 0, 1, &[]), cmd_execute(a, 0, 1, &[]), cmd_close(a), cmd_execute(b, 0, 1, &[]), prep(a), cmd_execute(a, 0, 1, &[]), cmd_close(b), cmd_close(a), vec![COM_PING]];
+        if a == b {
+            // the second prepare replaces the first; closing once closes it
+            cmds = vec![prep(a), prep(b), cmd_execute(a, 0, 1, &[]), cmd_close(a), vec![COM_PING]];
+        }
+        check_routing(&cmds, st).map_err(|mut v| {
+            v.msg = format!("statement ids {} and {}: {}", a, b, v.msg);
+            v
+        })
+    }
+    fn describe(&self, idx: u64) -> J {
+        json!({"first_statement_id": IDS[idx as usize / IDS.len()], "second_statement_id": IDS[idx as usize % IDS.len()]})
+    }
+}
+
 pub fn build(quick: bool) -> Check {
     let alpha = alphabet();
     let n = alpha.len();
@@ -306,10 +344,11 @@ pub fn build(quick: bool) -> Check {
         families.push(Box::new(SeqFamily { alpha: core, depth: 6 }));
     }
     families.push(Box::new(UseFamily { spellings: use_spellings() }));
+    families.push(Box::new(IdPairs));
     Check {
         id: "C02",
         level: "model_checking",
-        rule: format!("all command sequences of length <= {} over an alphabet of {} commands (near-miss prefixes, invalid UTF-8, statement ids at width boundaries, COM_INIT_DB names with edge whitespace/backticks/semicolons, quit mid-sequence), pipelined on one connection; every USE spelling of the stated grammar in 3 positions. Oracle: routing model (exact callback log, run_on result, strict decode of all replies). Non-trivial = sequence mixes at least two command kinds.", if quick {4} else {5}, n),
+        rule: format!("all command sequences of length <= {} over an alphabet of {} commands (near-miss prefixes, invalid UTF-8, statement ids at width boundaries, COM_INIT_DB names with edge whitespace/backticks/semicolons, quit mid-sequence), pipelined on one connection; every USE spelling of the stated grammar in 3 positions; every ordered pair of statement ids from a 24-value palette prepared, executed and closed in both orders. Oracle: routing model (exact callback log, run_on result, strict decode of all replies). Non-trivial = sequence mixes at least two command kinds.", if quick {4} else {5}, n),
         assumptions: vec![
             "for text that is not valid UTF-8 the property only says it is never handed to the shim: both 'connection ends with an error' and 'command skipped' are accepted".into(),
             "mixed-case spellings (Select @@x, Use db) are not in the alphabet because the property does not say how they route".into(),
@@ -318,6 +357,6 @@ pub fn build(quick: bool) -> Check {
         exhaustive: true,
         caps_hit: vec![],
         families,
-        required: vec!["sequences_with_invalid_utf8", "sequences_ending_in_error", "use_spellings_run"],
+        required: vec!["id_pairs", "sequences_with_invalid_utf8", "sequences_ending_in_error", "use_spellings_run"],
     }
 }
